@@ -204,6 +204,14 @@ def o_pipeline(case):
         except Exception:  # noqa: BLE001
             pass
     cfg = parse_config_dict(raw)
+    if case.get("explicit_xy"):
+        # the configuration built from dataclasses, its towers carrying lat/lon AND explicitly written local coordinates: whatever the
+        # configuration makes of them, the single run uses the tower's (x, y) of the configuration it is handed
+        import dataclasses
+        from bldfm.config_parser import TowerConfig
+        ex, ey = case["explicit_xy"]
+        cfg = dataclasses.replace(cfg, towers=[TowerConfig(name=t.name, lat=t.lat, lon=t.lon, z_m=t.z_m, x=ex + 7.0 * k, y=ey - 3.0 * k)
+                                               for k, t in enumerate(cfg.towers)])
     tower = cfg.towers[tw_i]
     flux = None
     if case.get("flux_seed") is not None:
@@ -363,7 +371,8 @@ def run(rng, tier, deep):
                 raw["solver"]["footprint"] = False
                 fseed = None
             before = sibling(rng, raw, which)
-        run_oracle(st, o_pipeline, dict(raw=raw, tower=tw, step=int(rng.integers(nstep)), flux_seed=fseed, before=before))
+        exy = [float(rng.uniform(10, 0.8 * raw["domain"]["xmax"])), float(rng.uniform(10, 0.8 * raw["domain"]["ymax"]))] if rng.random() < 0.25 else None
+        run_oracle(st, o_pipeline, dict(raw=raw, tower=tw, step=int(rng.integers(nstep)), flux_seed=fseed, before=before, explicit_xy=exy))
         run_oracle(st, o_yaml, dict(raw=raw))
     return finish(st, "configurations over closures x precisions x footprint/dispersion x default/explicit halo and modes x output_levels / empty list / "
                   "full_output / default level x z0-only and ustar forcing x scalar and list forcing x 1-3 towers with different heights x every time index "
